@@ -446,21 +446,42 @@ def step (d : DS) (line : String) : DS × Option String :=
       ({ d with sb := sb' }, some s)
     | "setmass" =>
       let (id, t) := t.nat; let (x, _) := t.rat
-      let (d, s) := afterSet d (d.m.setBodyMass id x) id cmd; (d, some s)
+      let (d, s) := afterSet d (d.m.setBodyMass id x) id cmd
+      ({ d with sb := d.sb.setParams id (fun nd => { nd with mass := x }) }, some s)
     | "setcom" =>
       let (id, t) := t.nat; let (x, _) := t.v3
-      let (d, s) := afterSet d (d.m.setBodyCenterOfMass id x) id cmd; (d, some s)
+      let (d, s) := afterSet d (d.m.setBodyCenterOfMass id x) id cmd
+      ({ d with sb := d.sb.setParams id (fun nd => { nd with com := x }) }, some s)
     | "setinertia" =>
       let (id, t) := t.nat; let (x, _) := t.m3
-      let (d, s) := afterSet d (d.m.setBodyInertia id x) id cmd; (d, some s)
+      let (d, s) := afterSet d (d.m.setBodyInertia id x) id cmd
+      ({ d with sb := d.sb.setParams id (fun nd => { nd with inertia := x }) }, some s)
     | "setparams" =>
       let (id, t) := t.nat; let (ms, t) := t.rat; let (I, t) := t.m3; let (c, _) := t.v3
-      let (d, s) := afterSet d (d.m.setBodyInertialParameters id ms I c) id cmd; (d, some s)
+      let (d, s) := afterSet d (d.m.setBodyInertialParameters id ms I c) id cmd
+      ({ d with sb := d.sb.setParams id (fun nd => { nd with mass := ms, inertia := I, com := c }) }, some s)
     | "setframe" =>
       let (id, t) := t.nat; let (X, _) := t.xt
       let (m', res) := d.m.setJointFrame id X
       let (d, s) := out { d with m := m' } cmd (match res with | .ok _ => "ok" | .error e => s!"err {errName e}")
-      (d, some s)
+      (match res with
+       | .ok _ => ({ d with sb := d.sb.setFrame id X.E X.r }, some s)
+       | .error _ => (d, some s))
+    | "join" | "separate" | "joinsep" =>
+      let (a, t) := parseBody t; let (X, t) := t.xt; let (b, _) := parseBody t
+      let showB := fun (x : Body Q) => "ok " ++ showRat x.mass ++ " " ++ showV3 x.com ++ " " ++ showM3 x.inertia
+      let res : Option (Body Q) := match cmd with
+        | "join" => a.join X b
+        | "separate" => a.separate X b
+        | _ => (a.join X b).bind (fun j => j.separate X b)
+      let r := out d cmd (match res with | some x => showB x | none => "err zeroMass")
+      let r := if cmd = "join" && a.mass + b.mass ≠ 0 && !(b.mass = 0 ∧ b.inertia = M3.zero) then
+          let u := Spec.rigidUnion a.mass a.com a.inertia X.E X.r b.mass b.com b.inertia
+          also r d "join.spec" ("ok " ++ showRat u.1 ++ " " ++ showV3 u.2.1 ++ " " ++ showM3 u.2.2)
+        else if cmd = "joinsep" && a.mass ≠ 0 then
+          also r d "joinsep.spec" (showB a)
+        else r
+      (r.1, some r.2)
     | "dump" => let (d, s) := out d cmd (dumpModel d.m); (d, some s)
     | "params" => let (d, s) := out d cmd (dumpParams d.m); (d, some s)
     | "getparent" =>
